@@ -7,5 +7,5 @@ CONSTANTS
   Masters = {0, 1, 2}
   Shapes = {"col2", "col3", "row2", "row3", "block"}
   SiPairs = {0, 1, 2, 3, 4}
-INVARIANTS Refines Dump
+INVARIANTS Compositional Refines Dump
 CHECK_DEADLOCK FALSE
